@@ -658,6 +658,8 @@ def gen_api_ops(rng, npool, nfar, nnear, maxops):
                 op = ['SET_F', rng.randrange(npool)]
             elif r < 0.2:
                 op = ['OBS_REPORT', []]
+            elif r < 0.28:
+                op = ['COMPUTE', 'steps']
             else:
                 op = ['COMPUTE']
         else:
@@ -666,9 +668,9 @@ def gen_api_ops(rng, npool, nfar, nnear, maxops):
             elif r < 0.25:
                 op = ['COMPUTE']
             elif r < 0.42 and nfar:
-                op = ['FAR', rng.randrange(nfar)]
+                op = ['FAR', rng.randrange(nfar), rng.choice(['', '', 'r', 'p', 'rp'])]
             elif r < 0.57 and nnear:
-                op = ['NEAR', rng.randrange(nnear)]
+                op = ['NEAR', rng.randrange(nnear), rng.choice(['', '', 'r', 'ra'])]
             elif r < 0.75:
                 op = ['OBS_NUM']
             elif r < 0.92:
@@ -686,7 +688,7 @@ def gen_api_ops(rng, npool, nfar, nnear, maxops):
             elif r < 0.985:
                 op = ['OBS_BASIC', rng.choice(['9', '9', '12', '13'])]
             else:
-                op = ['OBS_MISC']
+                op = ['OBS_MISC', rng.randrange(1000)]
         st.apply(op)
         ops.append(op)
     # make sure the history ends observable
@@ -827,7 +829,7 @@ def gen_cli_task(rng, maxops=8, env=None, kinds=None, model=None, pool=None):
                 inc = float(repr(round(c['pool'][1] - f0, 6)))
                 steps = 2
             base = [x for x in c['argv'] if x != '-T']
-            ops.append(['SWEEP', base, inc, steps])
+            ops.append(['SWEEP', base, inc, steps, rng.choice([0, 0, 1, 2, 3])])
         elif r < 0.9:
             ops.append(['RUN_BAD', rng.choice(BAD_ARGVS)])
         else:
@@ -980,7 +982,7 @@ def floor_plans(base_seed, tier='quick'):
             near = gen_near(rng, m)
             ops = [['OBS_REPORT', []], ['COMPUTE'], ['FAR', 0], ['NEAR', 0], ['OBS_NUM'],
                    ['SET_F', 1], ['COMPUTE'], ['NEAR', 0], ['FAR', 1], ['FAR', 0], ['OBS_NUM'],
-                   ['OBS_REPORT', ['far-field', 'near-field']], ['OBS_BASIC', '9'], ['OBS_MISC'],
+                   ['OBS_REPORT', ['far-field', 'near-field']], ['OBS_BASIC', '9'], ['OBS_MISC', 7],
                    ['COMPUTE'], ['OBS_NUM'],
                    ['SET_F', 0], ['COMPUTE'], ['FAR', 0], ['OBS_NUM'],
                    ['OBS_REPORT', ['far-field', 'far-field-absolute']], ['OBS_CMDLINE']]
